@@ -85,7 +85,7 @@ func (e *c19Env) accessors() map[string]bool {
 }
 
 func TestVerif_C19_UseLimit(t *testing.T) {
-	rec := verifx.NewRecorder("C19", "use-limit", "token with num_uses n in 1..4 and m in n+1..n+3 concurrent requests (echo/kv read/kv write/policy-denied/lease-generating/lookup-self/child-token create) presenting it, interleaved at storage-operation granularity by a generated schedule (stay-or-switch random walk, shrinks to few preemptions); oracle: requests that reached a backend handler or succeeded at the token store <= n, no child token, token dead afterwards, every secret leased under it revoked; also sequential histories (exact count); non-trivial = at least one context switch between two unfinished tasks inside the requests")
+	rec := verifx.NewRecorder("C19", "use-limit", "token with num_uses n in 1..4 and m in n+1..n+3 concurrent requests (echo/kv read/kv write/policy-denied/lease-generating/lookup-self/child-token create) presenting it, interleaved at storage-operation granularity by a generated schedule (stay-or-switch random walk, shrinks to few preemptions); oracle: requests that reached a backend handler or succeeded at the token store <= n, no child token, token dead afterwards, every secret leased under it revoked; also sequential histories (exact count), a third of them with a restart of the server between two uses; non-trivial = at least one context switch between two unfinished tasks inside the requests")
 	defer rec.Flush()
 	// one core per storage flavour, reused for a number of cases (every case makes its own token and paths)
 	envs := map[bool]*c19Env{}
@@ -129,11 +129,26 @@ func TestVerif_C19_UseLimit(t *testing.T) {
 		}()
 		switches := 0
 		var trace []string
+		restartAt := -1
+		if sequential && fairIndex(rt, "restartBetweenUses", 3) == 0 {
+			// the server is restarted between two uses: the uses already spent must stay spent
+			restartAt = rapid.IntRange(0, m-2).Draw(rt, "restartAfterRequest")
+		}
 		if sequential {
 			tc.rec.Gate = nil
 			for i, tk := range tasks {
 				tk.res = env.request(tk.kind, i, tok)
 				tk.ok = tk.res.ok()
+				if i == restartAt {
+					tc.waitExpirationIdle(2 * time.Second)
+					tc.shutdown()
+					ntc, err := tc.restartOn(tc.phys)
+					if err != nil {
+						t.Fatalf("harness: restart: %v", err)
+					}
+					env.tc, tc = ntc, ntc
+					rec.Class("sequential-with-restart", 1)
+				}
 			}
 		} else {
 			for i, tk := range tasks {
@@ -181,7 +196,7 @@ func TestVerif_C19_UseLimit(t *testing.T) {
 			if len(tr) > 80 {
 				tr = tr[:80]
 			}
-			return map[string]any{"n": n, "m": m, "sequential": sequential, "tasks": ks, "schedule": tr, "transactional": tc.opts.transactional}
+			return map[string]any{"n": n, "m": m, "sequential": sequential, "restart_after_request": restartAt, "tasks": ks, "schedule": tr, "transactional": tc.opts.transactional}
 		}
 		// requests that were authorised: reached a recbe handler, or returned success from the token store
 		reached := 0
